@@ -28,7 +28,25 @@ func TestC17RunningAgent(t *testing.T) {
 		var steps []stepT
 		for i, n := 0, rapid.IntRange(3, 10).Draw(t, "n"); i < n; i++ {
 			k := rapid.SampledFrom([]string{"api-add", "api-update-admin", "api-update-oldpw", "hup", "hup", "hup-broken-config"}).Draw(t, "step")
-			steps = append(steps, stepT{k, rapid.SampledFrom([]string{"a", "password", "qwerty", "alice", "Tr0ub4dor&3", "correct horse battery staple", "zq9#Lm2$vX7@pR4!kD", "1234567890", "xK9#mP2$"}).Draw(t, "pw")})
+			steps = append(steps, stepT{k, rapid.SampledFrom([]string{"a", "password", "qwerty", "alice", "Tr0ub4dor&3", "correct horse battery staple", "zq9#Lm2$vX7@pR4!kD", "1234567890", "xK9#mP2$",
+				"1l0v3y0u!+p@$$w0rd4+5h4d0w", "p@$$w0rd+5h4d0w+1l0v3y0u!"}).Draw(t, "pw")})
+		}
+		// once in a while a password that takes the strength estimator seconds to rate (long and random), followed by a weak one:
+		// slowness is not a verdict, and the next request gets its own
+		if rapid.IntRange(0, 3).Draw(t, "slow") == 0 {
+			at := rapid.IntRange(0, len(steps)).Draw(t, "slowat")
+			long := rapid.StringMatching(`[ -~]{150}`).Draw(t, "longpw")
+			// how slow it is depends on the content and on the machine: the scenario is used when the reference evaluation
+			// takes 2.5 .. 15 s here (longer would only test the patience of the HTTP client)
+			t0 := time.Now()
+			zxcvbn.PasswordStrength(long, []string{"alice", "whawty"})
+			if d := time.Since(t0); d > 2500*time.Millisecond && d < 15*time.Second {
+				ins := []stepT{{"api-update-admin", long}, {"api-update-admin", "password1"}, {"api-add", "password1"}}
+				steps = append(steps[:at], append(ins, steps[at:]...)...)
+				vlib.Class("c17-running:slow-to-rate-password-then-weak-ones")
+			} else {
+				vlib.Class("c17-running:slow-scenario-skipped(rating took " + map[bool]string{true: "under 2.5 s", false: "over 15 s"}[d <= 2500*time.Millisecond] + ")")
+			}
 		}
 		root, base, cfgFile, err := mkStore(cfg, []seedUser{{Name: "root", PW: "rootpw", Admin: true, PID: 1}, {Name: "alice", PW: "alice-old", PID: 1}})
 		if err != nil {
@@ -84,6 +102,13 @@ func TestC17RunningAgent(t *testing.T) {
 			case "api-add":
 				st, body, err = a.api("/api/add", map[string]any{"session": login.Session, "username": user, "password": s.PW, "admin": false}, nil)
 			case "api-update-admin":
+				if len(s.PW) >= 140 {
+					old := httpClient.Timeout
+					httpClient.Timeout = 180 * time.Second
+					st, body, err = a.api("/api/update", map[string]any{"session": login.Session, "username": user, "newpassword": s.PW}, nil)
+					httpClient.Timeout = old
+					break
+				}
 				st, body, err = a.api("/api/update", map[string]any{"session": login.Session, "username": user, "newpassword": s.PW}, nil)
 			case "api-update-oldpw":
 				st, body, err = a.api("/api/update", map[string]any{"username": user, "oldpassword": alicePW, "newpassword": s.PW}, nil)
